@@ -93,6 +93,19 @@ def random_exact(rng, tier):
     r = rng.random()
     if r < 0.45:
         return c_int(numgen.random_int(rng, "quick") if rng.random() < 0.5 else rng.randint(-20, 20))
+    if r < 0.6:
+        # numerator / denominator just beyond the 53 bits a float holds (converting them separately and
+        # dividing is then visibly not the correctly rounded quotient), or both beyond the float range
+        # while the quotient is moderate
+        k = rng.random()
+        if k < 0.4:
+            return c_rat((2 ** 53 + rng.getrandbits(rng.choice([1, 2, 3, 4, 20]))) * rng.choice([1, -1]) | 1, rng.choice([3, 7, 11, 1000003]))
+        if k < 0.7:
+            return c_rat(rng.choice([1, 3, -7, rng.getrandbits(40) | 1]), (2 ** 53 + rng.getrandbits(rng.choice([1, 2, 3, 20]))) | 1)
+        if k < 0.95:
+            return c_rat((2 ** 54 + rng.getrandbits(54)) | 1, (2 ** 53 + rng.getrandbits(53)) | 1)
+        e = 310        # (beyond the float range; exact arithmetic on 1000-bit numbers is slow in TLC, so rarely)
+        return c_rat(10 ** e * rng.choice([1, -1]), 10 ** (e - 1) + rng.choice([1, 3, 7]))
     d = rng.choice([2, 3, 4, 7, 10, 28, 2 ** 31, 2 ** 64 + 1, rng.getrandbits(70) | 1])
     n = rng.choice([rng.randint(-50, 50), numgen.random_int(rng, "quick"), d * rng.randint(-5, 5)])
     return c_rat(n, d)
